@@ -47,7 +47,7 @@ func checkC11(c *C01Case) *Violation {
 		worlds = append(worlds, &World{Seed: s})
 	}
 	for _, opt := range []bool{false, true} {
-		res := Compile(src, Opts{Optimize: opt, Auto: c.Auto})
+		res := Compile(src, Opts{Optimize: opt, Auto: c.Auto, FontPath: "@repo"})
 		if !res.OK() {
 			if res.Panic != nil || res.Budget {
 				return viol("crash", "opt=%v %s\n--- source\n%s", opt, res.Describe(), src)
@@ -112,6 +112,13 @@ func genC11(t *rapid.T) *C01Case {
 	cfg.NoGoto = rapid.Bool().Draw(t, "nogoto")
 	n := rapid.IntRange(1, 2).Draw(t, "nscripts")
 	c := &C01Case{File: GenScripts(t, cfg, n), Auto: cfg.Auto}
+	// inline text / moves() arguments, also on the AutoVar commands inside conditions
+	fcfg := DefaultFileCfg()
+	fcfg.CF = cfg
+	fg := &fileGen{t: t, cfg: fcfg}
+	for _, sc := range c.File.Scripts() {
+		fg.decorate(sc.Body)
+	}
 	nw := pick(12, 32)
 	base := rapid.Uint64Range(1, 1<<40).Draw(t, "world")
 	for i := 0; i < nw; i++ {
@@ -126,7 +133,7 @@ func TestC11_Regress(t *testing.T) { runRegress(t, "C11") }
 
 func TestC11_AutoVar(t *testing.T) {
 	st := stat("C11")
-	st.SetRule("scripts from the control-flow grammar in which every second leaf and switch operand is an AutoVar command (bare, negated, compared with the six operators and value()), mixed with flag/var/defeated leaves at every position of compound conditions (<= 5 leaves, redundant parentheses, negated groups) in if/elif/while/do-while; command configs are generated (1-4 commands with a fixed var name - shared or distinct - or an argument position 0-2) or a subset of the shipped config; the AutoVar command is an ordinary trace event of both interpreters and hashed worlds change every var after every command, so exactly-once execution, short-circuit order, repetition per loop iteration, rendering and the compared var are all decided by trace equality under 12 (thorough 32) worlds, optimize off and on. non-trivial = an expression with >= 2 AutoVar leaves after another leaf, or an AutoVar leaf in a loop condition; distinct by source text")
+	st.SetRule("scripts from the control-flow grammar in which every second leaf and switch operand is an AutoVar command (bare, negated, compared with the six operators and value()), mixed with flag/var/defeated leaves at every position of compound conditions (<= 5 leaves, redundant parentheses, negated groups) in if/elif/while/do-while, with inline text and moves() arguments on ordinary and AutoVar commands; command configs are generated (1-4 commands with a fixed var name - shared or distinct - or an argument position 0-2) or a subset of the shipped config; the AutoVar command is an ordinary trace event of both interpreters and hashed worlds change every var after every command, so exactly-once execution, short-circuit order, repetition per loop iteration, rendering and the compared var are all decided by trace equality under 12 (thorough 32) worlds, optimize off and on. non-trivial = an expression with >= 2 AutoVar leaves after another leaf, or an AutoVar leaf in a loop condition; distinct by source text")
 	st.Assume("the reference runs the AutoVar command (one trace event) and then compares the configured var (fixed name, or the argument at the configured position)")
 	runRapid(t, "C11", "TestC11_AutoVar", genC11, checkC11, c01Src)
 }
